@@ -893,7 +893,7 @@ package eval
 //@   ensures (forall i int :: (0 <= i && i < len(n.elements)) ==> evE(n.elements[i], env) == nil) ==> (err == nil && v is types.Set && (forall x types.Value :: setHas(v.(types.Set), x) == (exists i int :: 0 <= i && i < len(n.elements) && valEq(x, evV(n.elements[i], env)))))
 
 //@ func (recordLiteralEval) Eval
-//@   props C01
+//@   props C01 C14
 //@   results v, err
 //@   loop 1
 //@     invariant !isnil(vals)
